@@ -83,8 +83,15 @@ def _variant(name, data, rng_local):
         mask[rng_local.random(data.shape) < 0.2] = True
         mask[ny // 2, nx // 2 + 1] = True
         mask[0, :2] = True
-    if name in ('err', 'mask+err+nan'):
+    if name in ('err', 'mask+err+nan', 'tiny+err'):
         err = 0.3 + rng_local.random(data.shape)
+    if name == 'tiny+err':
+        # an image in physical flux units: everything five orders of magnitude smaller (the
+        # property is scale-free: errors of 1e-5 are errors, not round-off)
+        data = data * 1.0e-5
+        err = err * 1.0e-5
+        mask = np.zeros(data.shape, bool)
+        mask[ny // 2, :] = True
     if name == 'mask+err+nan':
         data[ny // 2 - 1, nx // 2] = np.nan      # unmasked non-finite data  -> auto-masked
         data[1, 1] = np.inf
@@ -426,7 +433,7 @@ def check_photometry(ctx, data, err, mask, xy, radii, method, s, tag, record=Tru
 def part_photometry(ctx):
     thorough = ctx.thorough
     scenes = ['noise+gauss', 'ramp'] + (['signed'] if thorough else [])
-    variants = ['plain', 'mask', 'err', 'mask+err+nan']
+    variants = ['plain', 'mask', 'err', 'mask+err+nan', 'tiny+err']
     for sname in scenes:
         base = _scene(sname, ctx.rng)
         cents = _centres(base.shape, thorough)
